@@ -136,6 +136,16 @@ impl Run {
         }
     }
 
+    /// A correspondence case. In the `search` tier (whose only purpose is to hit an oracle failure
+    /// on the real code) no request lines are written: the model is not consulted there.
+    pub fn case(&mut self, kind: &str, nontrivial: bool, op: &str, ans: &str) {
+        if self.ctx.search() {
+            self.ctx.count(&format!("searched:{}", kind.split(':').next().unwrap_or(kind)));
+        } else {
+            self.ctx.case(kind, nontrivial, op, ans);
+        }
+    }
+
     /// Point-level case (deduplicated): `g1 <fmt> <hex>`.
     pub fn g1_case(&mut self, fi: usize, chunk: &[u8], kind: &str) {
         if !self.seen_g1.insert((fi as u8, chunk.to_vec())) {
@@ -152,7 +162,7 @@ impl Run {
             Some(Err(e)) => format!("err {}", io_class(&e)),
         };
         let nontrivial = ans.starts_with("ok");
-        self.ctx.case(&format!("g1-{fs}:{kind}"), nontrivial, &format!("g1 {fs} {}", hex(chunk)), &ans);
+        self.case(&format!("g1-{fs}:{kind}"), nontrivial, &format!("g1 {fs} {}", hex(chunk)), &ans);
     }
 
     pub fn g2_case(&mut self, fi: usize, chunk: &[u8], kind: &str) {
@@ -167,7 +177,7 @@ impl Run {
             Some(Err(e)) => format!("err {}", io_class(&e)),
         };
         let nontrivial = ans.starts_with("ok");
-        self.ctx.case(&format!("g2-{fs}:{kind}"), nontrivial, &format!("g2 {fs} {}", hex(chunk)), &ans);
+        self.case(&format!("g2-{fs}:{kind}"), nontrivial, &format!("g2 {fs} {}", hex(chunk)), &ans);
     }
 
     /// Constraint-system shape `ZkStdLib::configure` builds for the architecture at the head of
